@@ -69,6 +69,15 @@ func Load(cfg Config) (*Program, error) {
 		cfg.Dir = "/repo"
 	}
 	env := os.Environ()
+	// go/packages shells out to the first `go` on PATH; /repo needs go >= 1.25 and
+	// GOTOOLCHAIN=local forbids switching, so put the pre-installed 1.26.8 first.
+	if _, err := os.Stat("/opt/veriftools/go1.26.8/bin/go"); err == nil {
+		if !strings.HasPrefix(os.Getenv("PATH"), "/opt/veriftools/go1.26.8/bin:") {
+			// exec.LookPath uses this process's PATH, not cmd.Env
+			os.Setenv("PATH", "/opt/veriftools/go1.26.8/bin:"+os.Getenv("PATH"))
+		}
+		env = os.Environ()
+	}
 	env = append(env, "GOFLAGS=-mod=mod", "GOPROXY=off", "GOSUMDB=off", "GOTOOLCHAIN=local", "GOWORK=off")
 	if cfg.GOARCH != "" {
 		env = append(env, "GOARCH="+cfg.GOARCH)
